@@ -197,9 +197,14 @@ where
         }
 
         trace!("checkout interested in pooled connections");
-        inner.waiting.entry(token).or_default().push_back(tx);
+        let dependent = inner.connecting.contains(&token);
+        inner
+            .waiting
+            .entry(token)
+            .or_default()
+            .push_back(Waiter { tx, dependent });
 
-        if inner.connecting.contains(&token) {
+        if dependent {
             trace!("connection in progress elsewhere, will wait");
             connector = None;
             Checkout::new(
@@ -317,6 +322,20 @@ where
     }
 }
 
+/// A checkout which can be served by a connection sent through the pool.
+#[derive(Debug)]
+struct Waiter<C, B>
+where
+    C: PoolableConnection<B>,
+    B: Send + 'static,
+{
+    tx: Sender<Pooled<C, B>>,
+
+    /// The checkout makes no connection attempt of its own: it relies on the
+    /// attempt which was in progress when it was created.
+    dependent: bool,
+}
+
 #[derive(Debug)]
 pub(in crate::client) struct PoolInner<C, B>
 where
@@ -326,7 +345,7 @@ where
     config: Config,
 
     connecting: HashSet<Token>,
-    waiting: HashMap<Token, VecDeque<Sender<Pooled<C, B>>>>,
+    waiting: HashMap<Token, VecDeque<Waiter<C, B>>>,
 
     idle: HashMap<Token, IdleConnections<C, B>>,
 }
@@ -349,6 +368,13 @@ where
         let existed = self.connecting.remove(&token);
         if existed {
             trace!("pending connection cancelled");
+
+            // Checkouts which rely on the cancelled attempt can never be served by it.
+            // Dropping their senders lets them finish (with an error) instead of
+            // waiting forever for a connection that will not arrive.
+            if let Some(waiters) = self.waiting.get_mut(&token) {
+                waiters.retain(|waiter| !waiter.dependent);
+            }
         }
     }
 }
@@ -383,6 +409,7 @@ where
             trace!(waiters=%waiters.len(), ?token, "walking waiters");
 
             while let Some(waiter) = waiters.pop_front() {
+                let waiter = waiter.tx;
                 if waiter.is_closed() {
                     trace!("skipping closed waiter");
                     continue;
